@@ -2,8 +2,10 @@
 exact at entered years, linear in between, constant outside the data range, or the constant assumption."""
 
 
-def series_value(d, t, method="linear"):
-    """d = {"a": x} and/or {"t": [...], "v": [...]} (a spec databook entry)"""
+def series_value(d, t, method=None):
+    """d = {"a": x} and/or {"t": [...], "v": [...]} (a spec databook entry); an entry may carry its own interpolation method "m"
+    ("previous" = stepped; the parameter set's documented per-parameter interpolation method), used when none is given"""
+    method = method or d.get("m") or "linear"
     ts = list(d.get("t") or [])
     vs = list(d.get("v") or [])
     if not ts:
